@@ -122,6 +122,15 @@ fn main() {
             println!("VERIF_SEED={seed} property={prop} tier={}", tier.name());
             std::process::exit(driver::check(prop, tier, seed));
         }
+        Some("selfcheck") => {
+            let seed: u64 = std::env::var("VERIF_SEED").ok().and_then(|s| s.parse().ok()).unwrap_or(1);
+            let cells: u64 = arg(&args, "--cells").map(|s| s.parse().unwrap()).unwrap_or(24);
+            let props: Vec<String> = match arg(&args, "--props") {
+                Some(p) => p.split(',').map(|s| s.to_string()).collect(),
+                None => ["C01", "C06", "C07", "C08", "C09", "C10", "C11", "C17", "C26"].iter().map(|s| s.to_string()).collect(),
+            };
+            std::process::exit(driver::selfcheck(&props, cells, seed));
+        }
         Some("replay") => {
             let path = args.get(2).expect("replay file");
             let quiet = args.iter().any(|a| a == "--quiet");
